@@ -1,3 +1,4 @@
+mod compat;
 mod corrupt;
 mod crash;
 mod deep;
